@@ -620,7 +620,7 @@ def build_native(ctx):
     return native.make_native(ctx, RT_FILES, extra, {"main.go": open(os.path.join(H, "main.go.txt")).read()}, name="native-c06")
 
 
-def run_e2e(ctx, rng, defect_clear, nops):
+def run_e2e(ctx, rng, defect_clear, nops, small=False):
     """End-to-end route: llgo-compiled interpreters using real map syntax, judged against the specification.
     Two batched programs per optimisation level: A = six key kinds without clear(); B = the same kinds with clear()
     and, last, the kind whose key and elem are larger than 128 bytes (stored indirectly)."""
@@ -629,8 +629,10 @@ def run_e2e(ctx, rng, defect_clear, nops):
     kinds6 = ["int", "str", "f64", "any", "arr", "stc"]
     stats = {"programs": 0, "trace_lines": 0, "violating_kinds": 0}
     seen = set()
-    for (pname, kinds, with_clear) in (("A", kinds6, False), ("B", kinds6 + ["big"], True)):
-        src, meta = c06_e2e.gen_program(rng, kinds, nops, with_clear)
+    # quick tier: ONE small program (all seven kinds, five short histories each, with clear + refill)
+    programs = (("Q", kinds6 + ["big"], True),) if small else (("A", kinds6, False), ("B", kinds6 + ["big"], True))
+    for (pname, kinds, with_clear) in programs:
+        src, meta = c06_e2e.gen_program(rng, kinds, nops, with_clear, histories=5 if small else 1)
         d = os.path.join(ctx.scratch, "e2e-" + pname)
         e2e.write_module(d, {"main.go": src})
         for opt in ("-O0", "-O2"):
@@ -836,8 +838,9 @@ def run(ctx, args):
         if not ctx.violations:
             ctx.report_broken("correspondence C06 real-vs-model", {"history": hist_json(h, mm[0]), "op": mm[0], "real": mm[1], "model": mm[2], "source": name})
     e2e_stats = None
-    if not quick or os.environ.get("C06_E2E"):
-        e2e_stats = run_e2e(ctx, rng, defect_clear, 400 if quick else 1200)
+    if os.environ.get("C06_E2E", "1") != "0":
+        big = (not quick) or os.environ.get("C06_E2E") == "full"
+        e2e_stats = run_e2e(ctx, rng, defect_clear, 1200 if not quick else (400 if big else 300), small=not big)
         ctx.log("e2e:", e2e_stats)
     for name, s in st.items():
         if s != "ok":
@@ -862,5 +865,5 @@ def run(ctx, args):
         "rule": "one evaluation = one map operation executed by the real code AND the model and compared; distinct = (kind, op, key token/slot)",
         "input_distribution": dist, "histories": len(hists), "spec_failures_on_real_code": spec_fail,
         "correspondence_mismatches": len(mismatches), "comparison_suspended_after_clear": suspended,
-        "e2e": e2e_stats if e2e_stats else "not run in this tier (thorough tier, or C06_E2E=1)",
+        "e2e": e2e_stats if e2e_stats else "switched off (C06_E2E=0)",
         "model_coverage": cov})
